@@ -75,24 +75,26 @@ type SchedSpec struct {
 	StallPermil int    `json:"stall_permil,omitempty"`
 	StallMean   int    `json:"stall_mean,omitempty"`
 	SyncQ       int    `json:"sync_q,omitempty"`
+	ClockPermil int    `json:"clock_permil,omitempty"` // clock-jump faults (only drawn when the library reads the clock)
 }
 
 // Scenario is one fully explicit simulated run (everything but the schedule,
 // which is either drawn from the PRNG after the scenario or given as decisions).
 type Scenario struct {
-	Run      uint64     `json:"run"`
-	Seed     uint64     `json:"seed"`
-	Cold     bool       `json:"cold,omitempty"` // simulate before any reference pass (first use of the library in the process when Run is the process's first)
-	Shared   []ExprSpec `json:"shared"`
-	Tasks    [][]Op     `json:"tasks"`
-	Late     []bool     `json:"late,omitempty"` // Late[t]: task t is started by a KSpawn operation
-	Sched    SchedSpec  `json:"sched"`
-	O2Every  uint64     `json:"o2_every,omitempty"` // per-step argument check cadence (0: operation boundaries only)
-	RefOrder []int      `json:"ref_order"`          // order of the second solo pass (flattened op numbers)
-	MapSeed  uint64     `json:"map_seed"`           // order in which library `range <map>` loops iterate (the simulator owns it)
-	Contend  bool       `json:"contend,omitempty"`
-	Shape    string     `json:"shape,omitempty"` // workload shape this scenario was drawn with (informational)
-	Giant    bool       `json:"giant,omitempty"` // giant inputs: larger step caps apply
+	Run       uint64     `json:"run"`
+	Seed      uint64     `json:"seed"`
+	Cold      bool       `json:"cold,omitempty"` // simulate before any reference pass (first use of the library in the process when Run is the process's first)
+	Shared    []ExprSpec `json:"shared"`
+	Tasks     [][]Op     `json:"tasks"`
+	Late      []bool     `json:"late,omitempty"` // Late[t]: task t is started by a KSpawn operation
+	Sched     SchedSpec  `json:"sched"`
+	O2Every   uint64     `json:"o2_every,omitempty"`   // per-step argument check cadence (0: operation boundaries only)
+	RefOrder  []int      `json:"ref_order"`            // order of the second solo pass (flattened op numbers)
+	ClockGaps [2]int64   `json:"clock_gaps,omitempty"` // simulated time that passes before the simulated run and before the second solo pass (ns)
+	MapSeed   uint64     `json:"map_seed"`             // order in which library `range <map>` loops iterate (the simulator owns it)
+	Contend   bool       `json:"contend,omitempty"`
+	Shape     string     `json:"shape,omitempty"` // workload shape this scenario was drawn with (informational)
+	Giant     bool       `json:"giant,omitempty"` // giant inputs: larger step caps apply
 
 	hot []hotQuery // generation-time only
 }
@@ -346,6 +348,12 @@ func genScenario(r *zsimrt.Rand, run, seed uint64, cold bool, c *corpus) *Scenar
 	}
 	sp := SchedSpec{Policy: pols[r.Intn(len(pols))]}
 	sp.SyncQ = []int{1, 2, 4, 10, 30}[r.Intn(5)]
+	if zsimrt.UsesTime {
+		// the library reads the clock: let time pass between the passes and jump inside the run
+		gaps := []int64{0, 0, int64(2e9), int64(90e9), int64(7200e9), int64(3 * 86400e9)}
+		sc.ClockGaps = [2]int64{gaps[r.Intn(len(gaps))], gaps[r.Intn(len(gaps))]}
+		sp.ClockPermil = []int{0, 2, 20, 100}[r.Intn(4)]
+	}
 	sp.MeanGap = []int{1, 3, 10, 30, 100, 1000}[r.Intn(6)]
 	if focusExpr || cold {
 		sp.MeanGap = []int{1, 2, 5, 10, 30, 100}[r.Intn(6)]
